@@ -38,6 +38,9 @@ SEEDS = [
     "c = 1\nd = 0\nx = 0\nwhile true:\n    c = Bernoulli(1/2)\n    d = Bernoulli(1/4)\n    if c == 1 && d == 0:\n        x = x + 1\n    end\n    if !(c == 1) || d == 1:\n        x = x - 1/2\n    end\nend\n",
     "x = 0\ny = 1\nwhile true:\n    x = x + 2 {1/3} x {1/3} x - y\n    y = 1 - y\nend\n",
     "c = 0\nx = 1\ny = 0\nwhile true:\n    c = Bernoulli(1/2)\n    if c == 1:\n        x, y = 0, x + y\n    else:\n        x = x + 1\n    end\nend\n",
+    # simultaneous assignment of textually identical random right-hand sides (independent draws), next to a sequential reading
+    "a = 0\nb = 0\ns = 0\nwhile true:\n    a, b = 1 {1/2} 0, 1 {1/2} 0\n    s = s + a*b\nend\n",
+    "a = 0\nb = 0\ns = 0\nwhile true:\n    a, b = Bernoulli(1/2), Bernoulli(1/2)\n    s, a = s + a*b, s\nend\n",
 ]
 SEEDS_MORE = [
     "g = 0\nx = 0\nwhile true:\n    g = Normal(x, 1)\n    x = x + g/2\nend\n",
@@ -111,9 +114,18 @@ def rewrites(text):
     # simultaneous <-> temporaries
     for i, l in enumerate(lines):
         m = re.match(r"^(\s*)([a-z](?:, [a-z])+) = (.+)$", l)
-        if m and "{" not in l:
+        if m:
             vs = [v.strip() for v in m.group(2).split(",")]
-            rs = [r.strip() for r in m.group(3).split(",")]
+            rs, depth, cur = [], 0, ""
+            for ch in m.group(3):  # split on top-level commas only
+                depth += ch in "({"
+                depth -= ch in ")}"
+                if ch == "," and depth == 0:
+                    rs.append(cur.strip())
+                    cur = ""
+                else:
+                    cur += ch
+            rs.append(cur.strip())
             if len(vs) == len(rs):
                 tmp = ["%su%d = %s" % (m.group(1), k, r) for k, r in enumerate(rs)]
                 asg = ["%s%s = u%d" % (m.group(1), v, k) for k, v in enumerate(vs)]
